@@ -148,6 +148,27 @@ MINE = {
  "C18-g": ("caught as built", ""),
  "C19-g": ("missed", "float bounds, const and in values without an exact binary representation; found and repaired a genuine defect on the way (7dd3c12)"),
  "C20-g": ("missed by C20 (caught by C19)", "mock case with NUMBER-encoded int64 fields that carry in/const rules and examples inside the set"),
+ # ---- round h (performance optimisations C01-C10, small features C11-C20)
+ "C01-h": ("caught as built", ""),
+ "C02-h": ("missed by C02 (a schedule-dependent break in the emitted Go code: caught by C17's bursts)", ""),
+ "C03-h": ("missed by C03 (caught by C01's route matching)", ""),
+ "C04-h": ("caught as built", ""),
+ "C05-h": ("caught as built", ""),
+ "C06-h": ("missed by C06 (caught by C05's value comparison)", ""),
+ "C07-h": ("missed by C07 (caught by C04, C05 and C14)", ""),
+ "C08-h": ("caught as built", ""),
+ "C09-h": ("caught as built", ""),
+ "C10-h": ("caught as built", ""),
+ "C11-h": ("missed", "server-side Content-Type mutations: values without a slash, empty, parameters only, duplicated header — combined with undecodable bodies"),
+ "C12-h": ("missed", "near-miss catalogue: definitions one step away from a refused one (two discriminated oneofs sharing a oneof_value, ...), which must be accepted"),
+ "C13-h": ("missed by C13 (caught by C12)", ""),
+ "C14-h": ("caught as built", ""),
+ "C15-h": ("missed", "enum shape whose numbers are declared in non-ascending order, used number-encoded and name-encoded from two files of one invocation"),
+ "C16-h": ("missed", "buf.validate enum rules (in / not_in / const / defined_only, with numbers the enum does not declare) on every enum carrier; the shared annotation corpus now also runs under C16"),
+ "C17-h": ("missed", "C17 scans the emitted client for option constructors beyond the documented ones, drives them on a fifth of the calls with arguments chosen by parameter type, and compares the shared *http.Client / http.DefaultClient state before and after every burst"),
+ "C18-h": ("missed", "field_examples texts that spell special values of the field's own kind (NaN, Infinity, padded/signed/out-of-range numbers, boolean words) on every scalar kind and cardinality"),
+ "C19-h": ("missed", "required on repeated string/bytes, on maps and together with min_items, probed with empty elements, keys and values"),
+ "C20-h": ("missed", "response fields named and typed like request fields with rules of their own; request sequences whose values break the response rules; every answer of a sequence is validated"),
 }
 
 
